@@ -14,6 +14,25 @@ func blocker(st string, nc nodeCase) bool {
 	return (st == "failed" && !nc.ContFail) || st == "canceled" || (st == "skipped" && !nc.ContSkip)
 }
 
+// preUnmet: the step's own precondition does not let it run, whenever it is evaluated. C02: such a step is SKIPPED
+// (never executed, never labelled failed). A precondition that cannot be evaluated at all (its command substitution
+// fails: Pre 4, 5, controlled answer 4) is not met either: the property knows met / not met only, and a step whose
+// command was never started has not failed.
+func preUnmet(nc nodeCase) bool {
+	switch nc.Pre {
+	case 2, 4, 5, 7, 8:
+		return true
+	case 3:
+		return nc.PreVal == 2 || nc.PreVal == 4
+	}
+	return false
+}
+
+// preEvalError: the flavours of preUnmet where the evaluation itself fails
+func preEvalError(nc nodeCase) bool {
+	return nc.Pre == 4 || nc.Pre == 5 || (nc.Pre == 3 && (nc.PreVal == 4 || nc.PreVal == 5))
+}
+
 func monitor(c schedCase, r *result, stopped bool) []string {
 	var v []string
 	add := func(f string, a ...any) { v = append(v, fmt.Sprintf(f, a...)) }
@@ -213,13 +232,17 @@ func monitor(c schedCase, r *result, stopped bool) []string {
 				continue
 			}
 			if allLic && !nc.Rep {
-				if nc.Pre == 2 || (nc.Pre == 3 && nc.PreVal == 2) {
+				if preUnmet(nc) {
 					if st != "skipped" || starts[i] != 0 {
-						add("C02:unmet-precondition-not-skipped:node=%d status=%s starts=%d", i, st, starts[i])
+						kind := ""
+						if preEvalError(nc) {
+							kind = " (the precondition cannot be evaluated: its command fails)"
+						}
+						add("C02:unmet-precondition-not-skipped:node=%d status=%s starts=%d pre=%d%s", i, st, starts[i], nc.Pre, kind)
 					}
 					continue
 				}
-				if nc.Pre == 3 && nc.PreVal == 3 {
+				if nc.Pre == 3 && (nc.PreVal == 3 || nc.PreVal == 5) {
 					// met once, unmet ever after: one execution at most; a failed first attempt that is handed back
 					// for a retry finds the precondition unmet and is skipped
 					w := "finished"
@@ -261,7 +284,21 @@ func monitor(c schedCase, r *result, stopped bool) []string {
 			want = "?" // canceled nodes without a failed node cannot happen in an unstopped run
 		}
 		if final.Overall != want {
-			add("C04:overall-status-mismatch:overall=%s want=%s", final.Overall, want)
+			why := ""
+			for i := 0; i < n; i++ {
+				if final.St[i] == "failed" && starts[i] == 0 {
+					// a step can be labelled failed without its command having been started (set-up failure, a
+					// precondition that could not be evaluated, ...): the label counts, whatever put it there
+					why += fmt.Sprintf(" node=%d labelled failed without an execution (pre=%d)", i, c.Nodes[i].Pre)
+				}
+			}
+			var hs []int
+			for _, e := range r.Events {
+				if e.Node >= 1000 && e.Kind == "start" {
+					hs = append(hs, e.Node-1000)
+				}
+			}
+			add("C04:overall-status-mismatch:overall=%s want=%s steps=%v handlers-run=%v%s", final.Overall, want, final.St, hs, why)
 		}
 	} else {
 		// ---- C05 ----
